@@ -510,6 +510,7 @@ def model_dump(case, r):
     return coq_print(PID, COQ_IMPORTS, "Eval vm_compute in model_dump (%s)." % t)[-8000:]
 
 
+SRC_SPECS = ["telem"]     # translator/specs/telem.json -> Generated/Src_Telem.v (regenerated on every run)
 READY = True
 TECHNIQUE = ("Coq proof (inductive invariant over operation lists, binary-search specification, refinement of the "
              "fast paths to the search result) + model/impl correspondence by vm_compute")
